@@ -141,6 +141,10 @@ class Algorithms:
                 if alg_type == 'aut':
                     continue
                 rec[sshv][alg_type] = {'add': {}, 'del': {}, 'chg': {}}
+
+                # GSS key exchanges end in a host-specific base64 field, which the database replaces with a wildcard (i.e.: 'gss-gex-sha1-vz8J1E9PzLr8b1K+0remTg==' => 'gss-gex-sha1-*').  Normalize the peer's names the same way so that they match their database entries.
+                if alg_type == 'kex':
+                    alg_list = [(a[0:a.rindex('-')] + '-*') if a.startswith('gss-') else a for a in alg_list]
                 for n, alg_desc in alg_db[alg_type].items():
                     versions = alg_desc[0]
                     empty_version = False
